@@ -69,6 +69,8 @@ def nontrivial(c):
         return iv(c["a"])
     if op in ("FpBin", "FpBF", "FpInt"):
         return iv(c["a"]) and iv(c["b"])
+    if op == "FpInterp":
+        return c["x"]["e"] - c["x"]["s"] >= 3
     if op == "FpGen":
         return len(c["knots"]) > c["p"] + 1
     if op == "Interp":
@@ -96,7 +98,7 @@ def case_key(c):
     def w(s):
         return (s.get("s"), s.get("e"), s.get("o"), len(s.get("g", []))) if isinstance(s, dict) else None
     return json.dumps([c.get("op"), w(c.get("a")), w(c.get("b")), w(c.get("c")), c.get("share"), c.get("top"), c.get("i"),
-                       c.get("pts") if c.get("op", "").startswith("Ex") else None, c.get("D"), c.get("start"), c.get("shift"), str(c.get("vals"))[:80] if c.get("op") == "ExPotential" else None, c.get("n"), c.get("w"), c.get("order"), c.get("bcs"), c.get("dflt"), len(c.get("y", [])) if isinstance(c.get("y"), list) else None, c.get("x") if c.get("op") == "Interp" else None, c.get("ast"), c.get("e1"), c.get("e2"), c.get("knots"), c.get("p"), c.get("route"), c.get("grid") if c.get("op") == "Gen" else None, [w(f) for f in c.get("fs", [])] if isinstance(c.get("fs"), list) else None])
+                       c.get("pts") if c.get("op", "").startswith("Ex") else None, c.get("D"), c.get("start"), c.get("shift"), str(c.get("vals"))[:80] if c.get("op") == "ExPotential" else None, c.get("n"), c.get("w"), c.get("order"), c.get("bcs"), c.get("dflt"), len(c.get("y", [])) if isinstance(c.get("y"), list) else None, c.get("x") if c.get("op") == "Interp" else None, c.get("ast"), c.get("e1"), c.get("e2"), c.get("knots"), c.get("p"), c.get("sexp"), c.get("route"), c.get("grid") if c.get("op") == "Gen" else None, [w(f) for f in c.get("fs", [])] if isinstance(c.get("fs"), list) else None])
 
 
 class Ctx:
@@ -152,8 +154,11 @@ def family_gen(ctx, family, consts=None):
     return vlib.gen(mc, cfg, ctx.consts(consts), ctx.tier, env=env)
 
 
-def stateless(ctx, family, ops, variant="exact", prop_view=None, consts=None, case_filter=None, build_subset=False):
-    """Gen -> Exec -> Validate for one stateless family, restricted to `ops`."""
+def stateless(ctx, family, ops, variant="exact", prop_view=None, consts=None, case_filter=None, build_subset=False, transform=None,
+              build_as=None):
+    """Gen -> Exec -> Validate for one stateless family, restricted to `ops`.
+    transform: optional rewriting of a generated case (e.g. the same
+    interpolation inputs sent to the floating-point entry point)."""
     cases_path, st = family_gen(ctx, family, consts)
     ctx.cov["states"] += st["states"]
     ctx.cov["transitions"] += st["transitions"]
@@ -163,10 +168,13 @@ def stateless(ctx, family, ops, variant="exact", prop_view=None, consts=None, ca
         l = l.rstrip("\n")
         c = json.loads(l)
         if c["op"] in ops and (case_filter is None or case_filter(c)):
-            lines.append(l)
+            lines.append(json.dumps(transform(c)) if transform else l)
     if not lines:
         raise MachineryFailure("no cases generated for %s/%s" % (family, sorted(ops)))
-    binp = build_family(family, variant, cases_path, lines if build_subset else None)
+    if build_as == "fp_plain":
+        binp = vlib.build(variant, FP_SOURCES, name="vh_fpi", libs=["-lquadmath"])
+    else:
+        binp = build_family(family, variant, cases_path, lines if build_subset else None)
     run_and_judge(ctx, family + ("-" + variant if variant != "exact" else ""), binp, lines, prop_view or ctx.prop)
 
 
@@ -187,6 +195,13 @@ def run_and_judge(ctx, family, binp, lines, view, confirm=True):
         ctx.violations.append(({"op": "exit"}, json.loads(e), "harness process failed at exit"))
     ctx.last_events = events
     ctx.last_cases = lines
+    for x in events:
+        if '"worst"' in x:
+            e = json.loads(x)
+            for k in ("float", "double", "ldouble"):
+                if isinstance(e.get(k), dict):
+                    w = ctx.cov.setdefault("worst_ratio_in_eps_S", {})
+                    w[k] = max(w.get(k, 0.0), e[k].get("worst", 0.0))
     rej = sorted(rejected)
     if not rej:
         return
@@ -399,6 +414,17 @@ def c08(ctx):
 # ------------------------------------------------------------------ properties
 def c12(ctx):
     stateless(ctx, "Interp", {"Interp"})
+    # the bundled dense solver (Eigen) in float, double and long double: residuals of the same conditions at backward-error level
+    def valid(c):
+        n = c["x"]["e"] - c["x"]["s"]
+        return n >= 2 and n == len(c["y"]) and all(1 <= b["d"] <= c["order"] for b in c["bcs"]) and solvable(c)
+    def solvable(c):
+        # sets for which the specification shows unique solvability (Interp!KnownSolvable)
+        o, b = c["order"], c["bcs"]
+        one = lambda node: all(x["node"] == node for x in b) and sorted(x["d"] for x in b) == list(range(1, o))
+        return o == 1 or (o <= 3 and c["dflt"] == 1) or one(0) or one(1)
+    stateless(ctx, "Interp", {"Interp"}, variant="fp", case_filter=valid, transform=lambda c: dict(c, op="FpInterp"), build_as="fp_plain")
+    ctx.assumptions.append("floating half: max residual of the interpolation conditions <= 2^20 eps (||M|| ||x|| + ||b||), evaluated by the harness in __float128, for the sets the specification shows uniquely solvable")
 
 
 def apalache_index(ctx):
@@ -465,6 +491,8 @@ def c15(ctx):
 
 def c01(ctx):
     stateless(ctx, "Gen", {"Gen"})
+    # every scalar type, any positive spacing: float / double / long double incl. knots scaled by 2^-60 (spacings far below eps)
+    stateless(ctx, "Fp", {"FpGen"}, variant="fp", build_subset=True)
 
 
 def c04(ctx):
@@ -491,11 +519,6 @@ def fp_family(ctx, ops, variants):
     digests = []
     for v in variants:
         stateless(ctx, "Fp", ops, variant=v)
-        for e in (json.loads(x) for x in ctx.last_events):
-            for k in ("float", "double", "ldouble"):
-                if k in e and isinstance(e[k], dict):
-                    w = ctx.cov.setdefault("worst_ratio_in_eps_S", {})
-                    w[k] = max(w.get(k, 0.0), e[k].get("worst", 0.0))
         digests.append({c: {k: e[k]["digest"] for k in ("float", "double", "ldouble") if k in e and isinstance(e[k], dict)}
                         for c, e in zip(ctx.last_cases, (json.loads(x) for x in ctx.last_events))})
     if len(digests) >= 2:
@@ -623,6 +646,20 @@ def c20(ctx):
     if "NoUB" not in rn["violated"]:
         raise MachineryFailure("the regression configuration Bug_EraseEnd=TRUE was not rejected: NoUB is vacuous")
     ctx.cov["tlc_runs"].append({"spec": "Examples", "negative_control": "Bug_EraseEnd", "rejected_by": rn["violated"]})
+    # (b) the algorithm itself at reduced order inside the specification, with an exact solve
+    for P, must in (("2", True), ("3", ctx.tier != "quick")):
+        if not must:
+            continue
+        ra = vlib.run_tlc("ExamplesAlg", vlib.cfg_text("ExamplesAlg.cfg", {"P": P}), os.path.join(wd, "alg" + P), workers=8, timeout=1800)
+        if ra["violated"] or ra["errors"] or not ra["completed"]:
+            ctx.violations.append(({"op": "ExamplesAlg", "P": P}, {"violated": ra["violated"], "errors": ra["errors"][:3]},
+                                   "the diffusion algorithm at reduced order violates its contract on the specification"))
+        ctx.cov["states"] += ra["distinct"]
+        ctx.cov["transitions"] += ra["generated"]
+        ctx.cov["tlc_runs"].append({"spec": "ExamplesAlg", "P": P, "states": ra["distinct"]})
+    rb = vlib.run_tlc("ExamplesAlg", vlib.cfg_text("ExamplesAlg.cfg", {"Bug_DropLastTerm": "TRUE"}), os.path.join(wd, "algn"), workers=8, timeout=1800)
+    if "ContractOK" not in rb["violated"]:
+        raise MachineryFailure("the negative control Bug_DropLastTerm=TRUE was not rejected: ExamplesAlg.ContractOK is vacuous")
     for variant in ("ex", "ex_san"):
         stateless(ctx, "Ex", {"ExDiffusion", "ExPotential", "ExOscillator", "ExHydrogen"}, variant=variant)
     ctx.cov["explanation"] = ("TLC checked the std::vector preconditions of the diffusion solver's skeleton for every basis size 2..12 (and rejected the pinned "
